@@ -88,6 +88,19 @@ Theorem C02_reject :
 Proof. exact accepted_is_spelled. Qed.
 Print Assumptions C02_reject.
 
+(* no text has two readings with different meanings (a consequence of C02_parse: the parser is a function) *)
+Theorem C02_unambiguous :
+  forall s e1 e2, wf_expr e1 = true -> wf_expr e2 = true -> Spells s e1 -> Spells s e2 ->
+    forall vid vsel, semv vid vsel e1 = semv vid vsel e2.
+Proof. exact unambiguous. Qed.
+Print Assumptions C02_unambiguous.
+
+(* the grammar of C02_reject contains the grammar of C02_parse *)
+Theorem C02_strict_is_lenient :
+  forall i ts e, SpellsT i ts e -> wf_expr e = true -> SpellsL i ts e.
+Proof. exact strict_is_lenient. Qed.
+Print Assumptions C02_strict_is_lenient.
+
 (* non-vacuity: hostile names are well-formed, and spellings exist *)
 Definition s_notepad : str := [110;111;116;101;112;97;100].
 Example C02_premises_inhabited :
